@@ -777,3 +777,120 @@ package leveldb
 //@   loop 1
 //@     invariant [C20:own-buffers] (sameblock(i.key, old(i.key)) || freshbase(i.key) || sameslice(i.key, old(i.key)) || isnil(i.key)) && (sameblock(i.value, old(i.value)) || freshbase(i.value) || sameslice(i.value, old(i.value)) || isnil(i.value))
 //@   ensures [C20:own-buffers] (sameblock(i.key, old(i.key)) || freshbase(i.key) || sameslice(i.key, old(i.key)) || isnil(i.key)) && (sameblock(i.value, old(i.value)) || freshbase(i.value) || sameslice(i.value, old(i.value)) || isnil(i.value))
+
+// ---------------------------------------------------------------------------
+// C18: a DB opened read-only creates, renames, removes nothing and does not move CURRENT.
+//@ count storage.Storage.Create
+//@ count storage.Storage.Rename
+//@ func (*DB).recoverJournalRO
+//@   props C18
+//@   safety off
+//@   ensures [C18:read-only-recovery-mutates-nothing] calls("storage.Storage.Create") == old(calls("storage.Storage.Create")) && calls("storage.Storage.Remove") == old(calls("storage.Storage.Remove")) && calls("storage.Storage.Rename") == old(calls("storage.Storage.Rename")) && calls("storage.Storage.SetMeta") == old(calls("storage.Storage.SetMeta"))
+//@ func openDB
+//@   props C18
+//@   safety off
+//@   guarantees [C18:read-only-open-mutates-nothing] readOnly ==> (calls("storage.Storage.Create") == old(calls("storage.Storage.Create")) && calls("storage.Storage.Remove") == old(calls("storage.Storage.Remove")) && calls("storage.Storage.Rename") == old(calls("storage.Storage.Rename")) && calls("storage.Storage.SetMeta") == old(calls("storage.Storage.SetMeta")))
+
+// After Close every method answers with the closed error and leaves the storage alone (a second Close too).
+//@ func (*DB).Get
+//@   props C18
+//@   safety off
+//@   requires db.closed != 0
+//@   ensures [C18:closed-means-closed] err == ErrClosed && calls("storage.Storage.Create") == old(calls("storage.Storage.Create")) && calls("storage.Storage.Remove") == old(calls("storage.Storage.Remove")) && calls("storage.Storage.Rename") == old(calls("storage.Storage.Rename")) && calls("storage.Storage.SetMeta") == old(calls("storage.Storage.SetMeta"))
+//@ func (*DB).Has
+//@   props C18
+//@   safety off
+//@   requires db.closed != 0
+//@   ensures [C18:closed-means-closed] err == ErrClosed && calls("storage.Storage.Create") == old(calls("storage.Storage.Create")) && calls("storage.Storage.Remove") == old(calls("storage.Storage.Remove")) && calls("storage.Storage.Rename") == old(calls("storage.Storage.Rename")) && calls("storage.Storage.SetMeta") == old(calls("storage.Storage.SetMeta"))
+//@ func (*DB).GetSnapshot
+//@   props C18
+//@   safety off
+//@   requires db.closed != 0
+//@   ensures [C18:closed-means-closed] ret1 == ErrClosed && calls("storage.Storage.Create") == old(calls("storage.Storage.Create")) && calls("storage.Storage.Remove") == old(calls("storage.Storage.Remove")) && calls("storage.Storage.Rename") == old(calls("storage.Storage.Rename")) && calls("storage.Storage.SetMeta") == old(calls("storage.Storage.SetMeta"))
+//@ func (*DB).GetProperty
+//@   props C18
+//@   safety off
+//@   requires db.closed != 0
+//@   ensures [C18:closed-means-closed] err == ErrClosed && calls("storage.Storage.Create") == old(calls("storage.Storage.Create")) && calls("storage.Storage.Remove") == old(calls("storage.Storage.Remove")) && calls("storage.Storage.Rename") == old(calls("storage.Storage.Rename")) && calls("storage.Storage.SetMeta") == old(calls("storage.Storage.SetMeta"))
+//@ func (*DB).Stats
+//@   props C18
+//@   safety off
+//@   requires db.closed != 0
+//@   ensures [C18:closed-means-closed] result == ErrClosed && calls("storage.Storage.Create") == old(calls("storage.Storage.Create")) && calls("storage.Storage.Remove") == old(calls("storage.Storage.Remove")) && calls("storage.Storage.Rename") == old(calls("storage.Storage.Rename")) && calls("storage.Storage.SetMeta") == old(calls("storage.Storage.SetMeta"))
+//@ func (*DB).SizeOf
+//@   props C18
+//@   safety off
+//@   requires db.closed != 0
+//@   ensures [C18:closed-means-closed] ret1 == ErrClosed && calls("storage.Storage.Create") == old(calls("storage.Storage.Create")) && calls("storage.Storage.Remove") == old(calls("storage.Storage.Remove")) && calls("storage.Storage.Rename") == old(calls("storage.Storage.Rename")) && calls("storage.Storage.SetMeta") == old(calls("storage.Storage.SetMeta"))
+//@ func (*DB).Close
+//@   props C18
+//@   safety off
+//@   ensures [C18:closed-means-closed] old(db.closed) != 0 ==> (result == ErrClosed && calls("(*session).release") == old(calls("(*session).release")) && calls("storage.Storage.Create") == old(calls("storage.Storage.Create")) && calls("storage.Storage.Remove") == old(calls("storage.Storage.Remove")) && calls("storage.Storage.Rename") == old(calls("storage.Storage.Rename")) && calls("storage.Storage.SetMeta") == old(calls("storage.Storage.SetMeta")))
+//@   ensures [C18:first-close-gives-the-storage-back] old(db.closed) == 0 ==> (db.closed != 0 && calls("(*session).release") == old(calls("(*session).release")) + 1)
+//@ count (*session).release
+//@ func (*DB).OpenTransaction
+//@   props C18
+//@   safety off
+//@   requires db.closed != 0
+//@   ensures [C18:closed-means-closed] ret1 == ErrClosed && calls("storage.Storage.Create") == old(calls("storage.Storage.Create")) && calls("storage.Storage.Remove") == old(calls("storage.Storage.Remove")) && calls("storage.Storage.Rename") == old(calls("storage.Storage.Rename")) && calls("storage.Storage.SetMeta") == old(calls("storage.Storage.SetMeta"))
+//@ func (*DB).Write
+//@   props C18
+//@   safety off
+//@   requires db.closed != 0
+//@   ensures [C18:closed-means-closed] result == ErrClosed && calls("storage.Storage.Create") == old(calls("storage.Storage.Create")) && calls("storage.Storage.Remove") == old(calls("storage.Storage.Remove")) && calls("storage.Storage.Rename") == old(calls("storage.Storage.Rename")) && calls("storage.Storage.SetMeta") == old(calls("storage.Storage.SetMeta"))
+//@ func (*DB).Put
+//@   props C18
+//@   safety off
+//@   requires db.closed != 0
+//@   ensures [C18:closed-means-closed] result == ErrClosed && calls("storage.Storage.Create") == old(calls("storage.Storage.Create")) && calls("storage.Storage.Remove") == old(calls("storage.Storage.Remove")) && calls("storage.Storage.Rename") == old(calls("storage.Storage.Rename")) && calls("storage.Storage.SetMeta") == old(calls("storage.Storage.SetMeta"))
+//@ func (*DB).Delete
+//@   props C18
+//@   safety off
+//@   requires db.closed != 0
+//@   ensures [C18:closed-means-closed] result == ErrClosed && calls("storage.Storage.Create") == old(calls("storage.Storage.Create")) && calls("storage.Storage.Remove") == old(calls("storage.Storage.Remove")) && calls("storage.Storage.Rename") == old(calls("storage.Storage.Rename")) && calls("storage.Storage.SetMeta") == old(calls("storage.Storage.SetMeta"))
+//@ func (*DB).CompactRange
+//@   props C18
+//@   safety off
+//@   requires db.closed != 0
+//@   ensures [C18:closed-means-closed] result == ErrClosed && calls("storage.Storage.Create") == old(calls("storage.Storage.Create")) && calls("storage.Storage.Remove") == old(calls("storage.Storage.Remove")) && calls("storage.Storage.Rename") == old(calls("storage.Storage.Rename")) && calls("storage.Storage.SetMeta") == old(calls("storage.Storage.SetMeta"))
+//@ func (*DB).SetReadOnly
+//@   props C18
+//@   safety off
+//@   ensures [C18:closed-means-closed] old(db.closed) != 0 ==> (result == ErrClosed && calls("storage.Storage.Create") == old(calls("storage.Storage.Create")) && calls("storage.Storage.Remove") == old(calls("storage.Storage.Remove")) && calls("storage.Storage.Rename") == old(calls("storage.Storage.Rename")) && calls("storage.Storage.SetMeta") == old(calls("storage.Storage.SetMeta")))
+//@ func (*DB).putRec
+//@   props C18
+//@   safety off
+//@   requires db.closed != 0
+//@   ensures [C18:closed-means-closed] result == ErrClosed && calls("storage.Storage.Create") == old(calls("storage.Storage.Create")) && calls("storage.Storage.Remove") == old(calls("storage.Storage.Remove")) && calls("storage.Storage.Rename") == old(calls("storage.Storage.Rename")) && calls("storage.Storage.SetMeta") == old(calls("storage.Storage.SetMeta"))
+
+// Released snapshots and finished transactions report their own errors; a snapshot of a closed DB the closed error.
+//@ func (*Snapshot).Get
+//@   props C18
+//@   safety off
+//@   requires snap.released || snap.db.closed != 0
+//@   ensures [C18:released-or-closed] (old(snap.released) ==> err == ErrSnapshotReleased) && (!old(snap.released) ==> err == ErrClosed) && calls("storage.Storage.Create") == old(calls("storage.Storage.Create")) && calls("storage.Storage.Remove") == old(calls("storage.Storage.Remove")) && calls("storage.Storage.Rename") == old(calls("storage.Storage.Rename")) && calls("storage.Storage.SetMeta") == old(calls("storage.Storage.SetMeta"))
+//@ func (*Snapshot).Has
+//@   props C18
+//@   safety off
+//@   requires snap.released || snap.db.closed != 0
+//@   ensures [C18:released-or-closed] (old(snap.released) ==> err == ErrSnapshotReleased) && (!old(snap.released) ==> err == ErrClosed) && calls("storage.Storage.Create") == old(calls("storage.Storage.Create")) && calls("storage.Storage.Remove") == old(calls("storage.Storage.Remove")) && calls("storage.Storage.Rename") == old(calls("storage.Storage.Rename")) && calls("storage.Storage.SetMeta") == old(calls("storage.Storage.SetMeta"))
+//@ func (*Transaction).Get
+//@   props C18
+//@   safety off
+//@   requires tr.closed
+//@   ensures [C18:finished-transaction] ret1 == errTransactionDone && calls("storage.Storage.Create") == old(calls("storage.Storage.Create")) && calls("storage.Storage.Remove") == old(calls("storage.Storage.Remove")) && calls("storage.Storage.Rename") == old(calls("storage.Storage.Rename")) && calls("storage.Storage.SetMeta") == old(calls("storage.Storage.SetMeta"))
+//@ func (*Transaction).Has
+//@   props C18
+//@   safety off
+//@   requires tr.closed
+//@   ensures [C18:finished-transaction] ret1 == errTransactionDone && calls("storage.Storage.Create") == old(calls("storage.Storage.Create")) && calls("storage.Storage.Remove") == old(calls("storage.Storage.Remove")) && calls("storage.Storage.Rename") == old(calls("storage.Storage.Rename")) && calls("storage.Storage.SetMeta") == old(calls("storage.Storage.SetMeta"))
+//@ func (*Transaction).Put
+//@   props C18
+//@   safety off
+//@   requires tr.closed
+//@   ensures [C18:finished-transaction] result == errTransactionDone && calls("storage.Storage.Create") == old(calls("storage.Storage.Create")) && calls("storage.Storage.Remove") == old(calls("storage.Storage.Remove")) && calls("storage.Storage.Rename") == old(calls("storage.Storage.Rename")) && calls("storage.Storage.SetMeta") == old(calls("storage.Storage.SetMeta"))
+//@ func (*Transaction).Delete
+//@   props C18
+//@   safety off
+//@   requires tr.closed
+//@   ensures [C18:finished-transaction] result == errTransactionDone && calls("storage.Storage.Create") == old(calls("storage.Storage.Create")) && calls("storage.Storage.Remove") == old(calls("storage.Storage.Remove")) && calls("storage.Storage.Rename") == old(calls("storage.Storage.Rename")) && calls("storage.Storage.SetMeta") == old(calls("storage.Storage.SetMeta"))
